@@ -5,7 +5,7 @@
 (* The action properties are the theorems C06/C08/C09 quote; Export writes every built design *)
 (* and every evaluation for replay into formulae.                                             *)
 EXTENDS Design, Json, IOUtils, CSV
-CONSTANTS N, NF, NG, XFull, DoExport, NAOps, PermOps, MaxSel
+CONSTANTS N, NF, NG, XFull, DoExport, NAOps, PermOps, MaxSel, UnseenOps, SubsetOps
 XS == IF XFull THEN [1..N -> 1..3] ELSE {[r \in 1..N |-> r], [r \in 1..N |-> IF r = N THEN 1 ELSE 2]}
 VARIABLES form, frame, policy, phase, opn, d, res
 vars == <<form, frame, policy, phase, opn, d, res>>
@@ -64,12 +64,25 @@ Build ==
   /\ phase' = "built" /\ UNCHANGED <<form, frame, policy, opn, res>>
 Sels == UNION {[1..k -> 1..N] : k \in 1..MaxSel}
 EvalSubset ==
-  /\ phase = "built" /\ d.status = "ok" /\ opn = 0 /\ form.resp # "f"
+  /\ SubsetOps /\ phase = "built" /\ d.status = "ok" /\ opn = 0 /\ form.resp # "f"
   /\ \E sel \in Sels :
        LET nf == TakeRows(frame, sel) IN
          res' = [status |-> "ok", sel |-> sel, common |-> EvalCommon(d, nf), group |-> EvalGroup(d, nf)]
   /\ phase' = "evaluated" /\ UNCHANGED <<form, frame, policy, opn, d>>
-Next == Permute \/ MakeNA \/ Build \/ EvalSubset
+\* C10: new data with unseen levels: rows of the training frame in which the cells of one or two
+\* variables are replaced by a level that never occurred (code 9), under each mode
+TrainFrame == IF policy = "drop" /\ d.status = "ok" THEN TakeRows(frame, d.rows) ELSE frame
+EvalUnseen ==
+  /\ UnseenOps /\ phase = "built" /\ d.status = "ok" /\ opn = 0 /\ form.resp # "f"
+  /\ \E sel \in Sels : \E vs \in {{"f"}, {"g"}, {"f", "g"}} : \E where \in {1, Len(sel)} : \E mode \in {"error", "warning", "silent"} :
+       LET nf0 == TakeRows(frame, sel)
+           nf == [nf0 EXCEPT !.cols = [c \in DOMAIN nf0.cols |->
+                     IF c \in vs THEN [nf0.cols[c] EXCEPT !.v[where] = 9] ELSE nf0.cols[c]]]
+       IN res' = [status |-> "unseen", sel |-> sel, vs |-> vs, where |-> where, mode |-> mode, newframe |-> nf,
+                  common |-> EvalCommonMode(form, frame, d, nf, mode),
+                  group |-> EvalGroupMode(form, frame, nf, mode)]
+  /\ phase' = "evaluated" /\ UNCHANGED <<form, frame, policy, opn, d>>
+Next == Permute \/ MakeNA \/ Build \/ EvalSubset \/ EvalUnseen
 Spec == Init /\ [][Next]_vars
 
 (* ---- theorems ---- *)
@@ -107,9 +120,38 @@ UnusedIgnored ==
             a.status = b.status /\ a.common = b.common /\ a.group = b.group /\ a.rows = b.rows ]_vars
 \* C06: new data made of rows of the training frame reproduces those rows of the training matrices
 SubsetReproduces ==
-  phase = "evaluated" =>
+  (phase = "evaluated" /\ res.status = "ok") =>
     /\ res.common = PermuteRows(d.common, res.sel)
     /\ res.group = PermuteRows(d.group, res.sel)
+\* C10: in warning / silent mode every column involving a variable is zero on exactly the rows
+\* holding an unseen level of it, and all other entries are what a seen level would give
+InvolvesVar(lab, v) == \E k \in 1..Len(lab) : lab[k][1] = v
+UnseenTheorem ==
+  (phase = "evaluated" /\ res.status = "unseen") =>
+    LET nf == res.newframe
+        seen == TakeRows(frame, res.sel)      \* the same rows with their original (seen) levels
+    IN /\ (res.mode = "error") => (res.common.status = "raise") = (UnseenRows(frame, nf, CommonVars(form)) # {})
+       /\ (res.mode = "error") => (res.group.status = "raise") = (UnseenRows(frame, nf, GroupVars(form)) # {})
+       /\ (res.common.status = "ok") =>
+            \A r \in 1..nf.n : \A j \in 1..Len(d.common_labels) :
+              LET lab == d.common_labels[j]
+                  hit == \E v \in res.vs : InvolvesVar(lab, v) /\ Unseen(frame, nf, v, r)
+              IN IF hit THEN res.common.common[r][j] = 0
+                 ELSE res.common.common[r][j] = LabelVal(seen, lab, r)
+       /\ (res.group.status = "ok") =>
+            /\ Len(res.group.slices) = Len(form.groups)
+            /\ \A k \in 1..Len(form.groups) :
+                 LET gt == form.groups[k]
+                     w0 == d.group_slices[k][2] - d.group_slices[k][1]
+                     w1 == res.group.slices[k][2] - res.group.slices[k][1]
+                     nr == UnseenRows(frame, nf, Range(gt.g))
+                 IN w1 = w0 + (IF nr = {} THEN 0 ELSE w0 \div Len(GroupCells(frame, gt.g)))
+            /\ \A r \in 1..nf.n : \A k \in 1..Len(form.groups) :
+                 \* a row of an unseen group is zero in every training block of that factor
+                 (r \in UnseenRows(frame, nf, Range(form.groups[k].g))) =>
+                    \A j \in (res.group.slices[k][1] + 1)..(res.group.slices[k][1] + (d.group_slices[k][2] - d.group_slices[k][1])) :
+                       res.group.group[r][j] = 0
+
 \* C04/C17: as many labels as columns, labels unique, slices partition the columns in term order
 Shape(dd) ==
   dd.status = "ok" =>
@@ -137,6 +179,6 @@ GroupBlock ==
 Case ==
   [form |-> form.id, txt |-> form.txt, frame |-> frame, policy |-> policy, opn |-> opn, d |-> d,
    phase |-> phase, res |-> res]
-Export == (DoExport /\ phase \in {"built", "evaluated"} /\ (phase = "built" => opn > 0 \/ form.id > 0))
+Export == (DoExport /\ phase \in {"built", "evaluated"})
             => CSVWrite("%1$s", <<ToJson(Case)>>, IOEnv.FV_OUT)
 =============================================================================
